@@ -223,6 +223,10 @@ struct Follower {
     ctx: Option<Scru128Id>,
     last_id: Option<Scru128Id>,
     started_at: Option<u64>,
+    /// the read task was spawned (it may still be waiting for the append lock)
+    spawned: bool,
+    /// tokio task of the read call while it waits for the append lock
+    wait_task: Option<usize>,
     rid: Option<u128>,
     orx: Option<std::sync::mpsc::Receiver<tokio::sync::mpsc::Receiver<Frame>>>,
     rx: Option<tokio::sync::mpsc::Receiver<Frame>>,
@@ -367,6 +371,8 @@ impl Run {
                     last_id,
                     spec,
                     started_at: None,
+                    spawned: false,
+                    wait_task: None,
                     rid: None,
                     orx: None,
                     rx: None,
@@ -611,6 +617,18 @@ impl Run {
         }
         // live task identity and receive counts, from the async points
         let ap = self.w.ctrl.aparked();
+        let bt = self.bcast_total;
+        for (task, site, detail) in &ap {
+            if *site == "read.subscribed" {
+                for f in self.followers.iter_mut() {
+                    if f.started_at.is_none() && f.wait_task == Some(*task) {
+                        f.started_at = Some(t);
+                        f.rid = Some(*detail);
+                        f.sent_at_sub = bt;
+                    }
+                }
+            }
+        }
         for (task, site, detail) in ap {
             if site == "live.start" {
                 for f in self.followers.iter_mut() {
@@ -674,19 +692,26 @@ impl Run {
             let rx = store.read(opts).await;
             let _ = otx.send(rx);
         });
-        let before: HashSet<u128> = self.w.ctrl.aparked().iter().filter(|(_, s, _)| *s == "read.subscribed").map(|(_, _, d)| *d).collect();
+        let before: HashSet<(usize, &'static str, u128)> = self.w.ctrl.aparked().into_iter().collect();
         self.w.step_tokio()?;
-        let after: Vec<u128> = self.w.ctrl.aparked().iter().filter(|(_, s, _)| *s == "read.subscribed").map(|(_, _, d)| *d).collect();
-        let rid = after.into_iter().find(|d| !before.contains(d));
+        let new: Vec<(usize, &'static str, u128)> = self.w.ctrl.aparked().into_iter().filter(|e| !before.contains(e)).collect();
+        let rid = new.iter().find(|(_, s, _)| *s == "read.subscribed").map(|(_, _, d)| *d);
+        let waiting = new.iter().find(|(_, s, _)| *s == "read.lockwait").map(|(t, _, _)| *t);
         let t = self.w.decisions;
         let bt = self.bcast_total;
         let f = &mut self.followers[k];
         f.orx = Some(orx);
-        f.started_at = Some(t);
-        f.rid = rid;
-        f.sent_at_sub = bt;
-        if rid.is_none() {
-            return harness("follower read did not reach read.subscribed");
+        f.spawned = true;
+        if rid.is_some() {
+            f.started_at = Some(t);
+            f.rid = rid;
+            f.sent_at_sub = bt;
+        } else if waiting.is_some() {
+            // a writer is inside append: the read waits for the append lock and subscribes later
+            f.wait_task = waiting;
+            self.w.probe("follower:waited-for-append-lock");
+        } else {
+            return harness("follower read reached neither read.subscribed nor read.lockwait");
         }
         Ok(())
     }
@@ -828,7 +853,7 @@ impl Run {
             let mut extra: Vec<String> = Vec::new();
             let mut extra_kind: Vec<(u8, usize)> = Vec::new();
             for (k, f) in self.followers.iter().enumerate() {
-                if f.started_at.is_none() {
+                if !f.spawned {
                     extra.push(format!("start-follower#{}", k));
                     extra_kind.push((0, k));
                 } else if let Some(rx) = &f.rx {
@@ -851,7 +876,9 @@ impl Run {
                     extra_kind.push((3, 0));
                 }
             }
-            let picked = self.w.decide(chooser, &extra, &|e| e.site != "writer.end" && e.site != "remover.end" && e.actor_kind != "gc")?;
+            // a read waiting for the append lock is worth another try only once the lock is free
+            let lock_free = self.store.verif_append_lock_free();
+            let picked = self.w.decide(chooser, &extra, &|e| e.site != "writer.end" && e.site != "remover.end" && e.actor_kind != "gc" && (e.site != "read.lockwait" || lock_free))?;
             match picked {
                 Picked::Nothing => break,
                 Picked::Ran(label) => {
